@@ -9,9 +9,10 @@
 (* One node, in the order of threshold.go KeyGen / runDKG:                 *)
 (*   idle  --Call-->        s1    handlers of the first synchronisation    *)
 (*                                and the classifier registered            *)
-(*   s1    --Sync1Done-->   reg   (callback) broadcast instance registered *)
-(*   reg   --InitBackend--> init  KeyGenerator.Init                        *)
-(*   init  --StartSync2-->  s2    second synchronisation (on the hash of   *)
+(*   s1    --Sync1Done-->   cb    the callback of the synchroniser runs    *)
+(*   cb    --InitBackend--> init  KeyGenerator.Init                        *)
+(*   init  --Register-->    reg   broadcast instance registered            *)
+(*   reg   --StartSync2-->  s2    second synchronisation (on the hash of   *)
 (*                                the member list) registered and started  *)
 (*   s2    --Sync2Done-->   run   KeyGenerator.KeyGen: protocol messages   *)
 (*   run   --Finish-->      done                                           *)
@@ -32,13 +33,17 @@
 (*   "reg-after-sync2" the broadcast instance is registered after sync2    *)
 (*   "init-after-sync2" the back end is initialised after sync2            *)
 (*   "no-box"          silent mode forwards without holding                *)
+(*   "reg-before-init" the broadcast instance is registered before Init    *)
+(*                     (the code before fix af2ca21: a member that sends   *)
+(*                     while the node initialises reaches an uninitialised *)
+(*                     back end; Inject is that member)                    *)
 (***************************************************************************)
 EXTENDS Integers, FiniteSets, TLC
 
 CONSTANTS Nodes, Mode, Variant
 
 ASSUME Mode \in {"loud", "silent"}
-ASSUME Variant \in {"asis", "no-sync2", "reg-after-sync2", "init-after-sync2", "no-box"}
+ASSUME Variant \in {"asis", "no-sync2", "reg-after-sync2", "init-after-sync2", "no-box", "reg-before-init"}
 
 VARIABLES stage,      \* [Nodes -> stage name]
           registered, \* nodes whose broadcast instance is registered
@@ -68,16 +73,21 @@ Call(i) == /\ stage[i] = "idle"
 
 Sync1Done(i) == /\ stage[i] = "s1"
                 /\ Mode = "loud" => started1 = Nodes
-                /\ stage' = [stage EXCEPT ![i] = "reg"]
-                /\ registered' = IF Variant = "reg-after-sync2" THEN registered ELSE registered \cup {i}
+                /\ stage' = [stage EXCEPT ![i] = "cb"]
+                /\ registered' = IF Variant = "reg-before-init" THEN registered \cup {i} ELSE registered
                 /\ UNCHANGED <<inited, started1, started2, net, sent, boxOpen, held, got, lost, early>>
 
-InitBackend(i) == /\ stage[i] = "reg"
+InitBackend(i) == /\ stage[i] = "cb"
                   /\ stage' = [stage EXCEPT ![i] = "init"]
                   /\ inited' = IF Variant = "init-after-sync2" THEN inited ELSE inited \cup {i}
                   /\ UNCHANGED <<registered, started1, started2, net, sent, boxOpen, held, got, lost, early>>
 
-StartSync2(i) == /\ stage[i] = "init"
+Register(i) == /\ stage[i] = "init"
+               /\ stage' = [stage EXCEPT ![i] = "reg"]
+               /\ registered' = IF Variant = "reg-after-sync2" THEN registered ELSE registered \cup {i}
+               /\ UNCHANGED <<inited, started1, started2, net, sent, boxOpen, held, got, lost, early>>
+
+StartSync2(i) == /\ stage[i] = "reg"
                  /\ stage' = [stage EXCEPT ![i] = "s2"]
                  /\ started2' = started2 \cup {i}
                  /\ UNCHANGED <<registered, inited, started1, net, sent, boxOpen, held, got, lost, early>>
@@ -116,15 +126,23 @@ Deliver(i, j) == /\ <<i, j>> \in net
                            /\ UNCHANGED held
                  /\ UNCHANGED <<stage, registered, inited, started1, started2, sent, boxOpen>>
 
+\* a member that does not follow the protocol sends a (point-to-point) protocol message to j at a moment of its choice; in silent
+\* mode it goes through j's Box like any other.  It must never find a registered but uninitialised back end.
+Inject(j) == /\ IF Mode = "silent" /\ Variant # "no-box" /\ j \notin boxOpen
+                  THEN UNCHANGED early
+                  ELSE early' = (early \/ (j \in registered /\ j \notin inited))
+             /\ UNCHANGED <<stage, registered, inited, started1, started2, net, sent, boxOpen, held, got, lost>>
+
 Finish(i) == /\ stage[i] = "run" /\ i \in sent /\ got[i] = Others(i)
              /\ stage' = [stage EXCEPT ![i] = "done"]
              /\ UNCHANGED <<registered, inited, started1, started2, net, sent, boxOpen, held, got, lost, early>>
 
-Next == \E i \in Nodes : \/ Call(i) \/ Sync1Done(i) \/ InitBackend(i) \/ StartSync2(i) \/ Sync2Done(i) \/ Send(i) \/ Finish(i)
+Next == \E i \in Nodes : \/ Call(i) \/ Sync1Done(i) \/ InitBackend(i) \/ Register(i) \/ StartSync2(i) \/ Sync2Done(i) \/ Send(i) \/ Finish(i)
+                         \/ Inject(i)
                          \/ \E j \in Others(i) : Deliver(i, j)
 
 Spec == Init /\ [][Next]_vars /\ WF_vars(Next)
-FairSpec == Init /\ [][Next]_vars /\ \A i \in Nodes : /\ WF_vars(Call(i)) /\ WF_vars(Sync1Done(i)) /\ WF_vars(InitBackend(i))
+FairSpec == Init /\ [][Next]_vars /\ \A i \in Nodes : /\ WF_vars(Call(i)) /\ WF_vars(Sync1Done(i)) /\ WF_vars(InitBackend(i)) /\ WF_vars(Register(i))
                                                       /\ WF_vars(StartSync2(i)) /\ WF_vars(Sync2Done(i)) /\ WF_vars(Send(i)) /\ WF_vars(Finish(i))
                                                       /\ \A j \in Others(i) : WF_vars(Deliver(i, j))
 
